@@ -1,9 +1,13 @@
 SPECIFICATION Spec
-CONSTANTS K = 1 SendPuncture = TRUE PunctureFirst = TRUE FollowAll = FALSE MaxId = 24 QuietCalls = TRUE
+CONSTANTS K = 1 SendPuncture = TRUE PunctureFirst = TRUE FollowAll = FALSE MaxId = 40 QuietCalls = TRUE
           APlaces = {"pub", "nat"} CandPlaces = {"pub", "nat", "withA", "withI"}
           MaxContactsA = 2 MaxContactsB = 2
+          MinContacts = 1 MaxRebinds = 1 Clock0 = 65534 Refresh = TRUE Ident16 = TRUE
 INVARIANT TypeOK
 INVARIANT Reach
 INVARIANT LanMeet
 INVARIANT AsksPuncture
+INVARIANT HandsOutCurrent
+INVARIANT HoldsWorking
+INVARIANT IdentFits
 CHECK_DEADLOCK TRUE
